@@ -335,6 +335,15 @@ def discharge_site(dis, b, bi, t, kind):
                 if not dis.idx_below(cn, idx, ln, facts):
                     return False, ""
                 whys.append("%s < %s" % (short(ci)[:30], short(cl)[:40]))
+            elif kind == "overflow-sub" and tt["k"] == "assert":
+                # a − b cannot wrap when b ≤ a follows from the facts (guards on the way, type invariants)
+                m = tt["msg"]
+                a_ = cn.norm_extent(cn.canon(ev.operand(env, m["a"], (bi, None))))
+                b_ = cn.norm_extent(cn.canon(ev.operand(env, m["b"], (bi, None))))
+                facts = dis.facts(cn, body, env, bi)
+                if not tab.provably_le(b_, a_, facts):
+                    return False, ""
+                whys.append("%s ≤ %s" % (short(b_)[:40], short(a_)[:40]))
             elif tt["k"] == "call" and tt.get("t") is None or kind in ("panic", "panic_fmt", "assert_failed", "panic_explicit", "unreachable_display"):
                 # an explicit panic: reached only under conditions the facts refute
                 g = Guards(ev, body, env)
